@@ -261,6 +261,14 @@ def concurrent_roundtrips(ctx, alpha, seed):
             try:
                 s = short_uuid.uuid_to_short_str(u)
                 back = short_uuid.uuid_from_short_str(s)
+                # (the general entry point too, with both forms, from a thread that did not import the module)
+                if short_uuid.uuid_from_str(s) != u or short_uuid.uuid_from_str(str(u)) != u:
+                    back = None
+                try:
+                    short_uuid.uuid_from_str(s + "!")
+                    back = None
+                except ValueError:
+                    pass
             except Exception as err:
                 errors.append(("raises", str(n), repr(err)))
                 continue
